@@ -46,6 +46,22 @@ CHECKS = {
              'memory/time-travel programs, swept over every stack size within 6 words of the smallest size that reproduces the generous-stack outcome '
              '(found by binary search) plus a ladder. A clean sanitizer run is not memory safety: only accesses the workload reached are judged.',
         note=ISA + '; M-SAN entitlement rules of DESIGN.md section 4 (calibrated silent on 26k accesses of the upstream programs)', ref='6 (C04), 4'),
+    'C05': dict(
+        engine='svm+model', technique='differential runtime monitoring (M-DIFF vs reference interpreter that raises the same faults) on a boundary grid; M-END terminal-state monitor',
+        text='Exploration with an exhaustively enumerated grid: every faulting operator x element type x storage class x access form with ~19 index values, '
+             '60 dividend/divisor pairs and 18 VLA lengths at word sizes 2,3,4 produced exactly prefix + [flag kind, flag error] (or no fault) as the '
+             'model predicts; plus random hostile programs and time-travel programs (nonlocal_preempt).',
+        note=ISA + '; ' + MODEL, ref='6 (C05)'),
+    'C08': dict(
+        engine='svm', technique='runtime invariant monitor M-BAL ((fp,ap) per activation at loop heads/exits, call returns, stop-handler restore), M-SAN use-after-release, peak-ap twin comparison',
+        text='Exploration: no balance violation on any executed run of the scope-exit enumeration (8 array kinds x 11 exit routes x for/while x 5 nesting '
+             'shapes x 4 try placements, n = 1,2,7 iterations; peak ap equal for n=3 and n=40) nor on random memory/time-travel programs.',
+        note=ISA + '; observation points are compiler-emitted labels', ref='6 (C08), 4'),
+    'C16': dict(
+        engine='svm+model', technique='runtime monitor M-FALL (sequential pc crossing a function boundary) on the SVM + reference interpreter observing fall-off-the-end and dropped statements (M-DIFF)',
+        text='Exploration: for every generated function body (all flavours, both return kinds) accepted by hidc, no run on inputs 0..5 (word sizes 2,3; checked and '
+             'unchecked) crossed a function boundary sequentially, reached the end of a value-returning body in the model, or differed from the model.',
+        note=ISA + '; ' + MODEL, ref='6 (C16)'),
 }
 
 NOT_YET = {}
